@@ -507,6 +507,39 @@ def reqAdd (g : Grammar) (n : Name) : Except Err Grammar :=
 def reqDiscard (g : Grammar) (n : Name) : Grammar :=
   { g with required := serase g.required n }
 
+/-- `defaults.update(items)` (`MutableMapping.update`): the items are set one by one, each through the
+    checking `__setitem__`; the first name that is not an element raises `KeyError` and what was set
+    before stays. Returns the grammar and whether the call succeeded. -/
+def updateDefaults (g : Grammar) : List (Name × String) → Grammar × Bool
+  | [] => (g, true)
+  | p :: t =>
+    if p.1 ∈ g.keys then updateDefaults { g with defaults := aset g.defaults p.1 p.2 } t
+    else (g, false)
+
+def clearDefaults (g : Grammar) : Grammar := { g with defaults := [] }
+
+/-- `required_names.remove(name)`: `KeyError` when the name is not required. -/
+def reqRemove (g : Grammar) (n : Name) : Except Err Grammar :=
+  if n ∈ g.required then .ok { g with required := serase g.required n } else .error .key
+
+def reqClear (g : Grammar) : Grammar := { g with required := [] }
+
+/-- `required_names |= names` (`MutableSet.__ior__`): `add` one by one, stops at the first name that
+    is not an element, keeping what was added before. -/
+def reqUpdate (g : Grammar) : List Name → Grammar × Bool
+  | [] => (g, true)
+  | n :: t =>
+    if n ∈ g.keys then reqUpdate { g with required := sinsert g.required n } t
+    else (g, false)
+
+/-- `required_names -= names`. -/
+def reqSub (g : Grammar) (names : List Name) : Grammar :=
+  { g with required := g.required.filter (· ∉ names) }
+
+/-- `required_names &= names`. -/
+def reqAnd (g : Grammar) (names : List Name) : Grammar :=
+  { g with required := g.required.filter (· ∈ names) }
+
 /-! ### Lazily built schema and validator (JSON) -/
 
 /-- The schema dict built from the builder and the required names of the grammar (repaired:
@@ -692,6 +725,17 @@ inductive Op where
   | defaults (s : Nat) (l : List (Name × String))
   | reqadd (s : Nat) (n : Name)
   | reqdisc (s : Nat) (n : Name)
+  -- the other public ways of writing defaults and required names
+  | defupd (s : Nat) (l : List (Name × String))      -- `g.defaults.update(dict)`
+  | defupdfrom (dst src : Nat)                         -- `dst.defaults.update(src.defaults)` (a `Defaults` object)
+  | defassignfrom (dst src : Nat)                      -- `dst.defaults = src.defaults`
+  | defclear (s : Nat)                                 -- `g.defaults.clear()`
+  | reqremove (s : Nat) (n : Name)
+  | reqclear (s : Nat)
+  | requpd (s : Nat) (names : List Name)               -- `rn = g.required_names; rn |= names`
+  | reqsub (s : Nat) (names : List Name)               -- `rn -= names`
+  | reqand (s : Nat) (names : List Name)               -- `rn &= names`
+  | reqassign (s : Nat) (names : List Name)            -- `g.required_names = names`: the property has no setter
   -- read-only queries
   | val (s : Nat) (data : List (Name × Val))
   | qschema (s : Nat)
@@ -757,6 +801,28 @@ def step (w : World) (op : Op) : World × Out :=
   | .defaults s l => (match w.get s with | some g => liftE w s (assignDefaults g l) | none => (w, .badSlot))
   | .reqadd s n => (match w.get s with | some g => liftE w s (reqAdd g n) | none => (w, .badSlot))
   | .reqdisc s n => (match w.get s with | some g => (w.put s (reqDiscard g n), .ok) | none => (w, .badSlot))
+  | .defupd s l =>
+    (match w.get s with
+     | some g => let r := updateDefaults g l; (w.put s r.1, if r.2 then .ok else .err .key)
+     | none => (w, .badSlot))
+  | .defupdfrom d s =>
+    (match w.get d, w.get s with
+     | some gd, some gs => let r := updateDefaults gd gs.defaults; (w.put d r.1, if r.2 then .ok else .err .key)
+     | _, _ => (w, .badSlot))
+  | .defassignfrom d s =>
+    (match w.get d, w.get s with
+     | some gd, some gs => liftE w d (assignDefaults gd gs.defaults)
+     | _, _ => (w, .badSlot))
+  | .defclear s => (match w.get s with | some g => (w.put s (clearDefaults g), .ok) | none => (w, .badSlot))
+  | .reqremove s n => (match w.get s with | some g => liftE w s (reqRemove g n) | none => (w, .badSlot))
+  | .reqclear s => (match w.get s with | some g => (w.put s (reqClear g), .ok) | none => (w, .badSlot))
+  | .requpd s l =>
+    (match w.get s with
+     | some g => let r := reqUpdate g l; (w.put s r.1, if r.2 then .ok else .err .key)
+     | none => (w, .badSlot))
+  | .reqsub s l => (match w.get s with | some g => (w.put s (reqSub g l), .ok) | none => (w, .badSlot))
+  | .reqand s l => (match w.get s with | some g => (w.put s (reqAnd g l), .ok) | none => (w, .badSlot))
+  | .reqassign s _ => (match w.get s with | some _ => (w, .err .attr) | none => (w, .badSlot))
   | .val s data =>
     (match w.get s with
      | some g => let (b, g') := validate g data; (w.put s g', .verdict b)
@@ -786,6 +852,12 @@ def run (w : World) (ops : List Op) : World := ops.foldl (fun w op => (step w op
 /-- Which operations are read-only queries. -/
 def Op.isQuery : Op → Bool
   | .val .. | .qschema .. | .qjson .. | .qsimple .. | .qmisc .. => true
+  | _ => false
+
+/-- Operations that apply their items one by one and keep what was applied before a failing item
+    (Python's `MutableMapping.update` / `MutableSet.__ior__`). -/
+def Op.partialOnError : Op → Bool
+  | .defupd .. | .defupdfrom .. | .requpd .. => true
   | _ => false
 
 /-- The public definition of a grammar (what `keys()`, `required_names`, `defaults`, the namespace
